@@ -77,6 +77,7 @@ def _gen_main(rng, tier):
 def gen(rng, tier):
     yield from _gen_main(rng, tier)
     yield from _grid(rng, tier)
+    yield from _huge(rng, tier)
 
 
 def _grid(rng, tier):
@@ -89,3 +90,17 @@ def _grid(rng, tier):
         for a, b in grid_pairs(rng, cfg, lim):
             yield f"widening_mul u{cfg} {hx(a)} {hx(b)}", "edge-grid"
             yield f"carrying_mul u{cfg} {hx(a)} {hx(b)} {hx(rng.choice(edge_grid(*wn(cfg))))}", "edge-grid"
+
+
+def _huge(rng, tier):
+    for cfg in HUGE_CFGS:
+        vals = huge_values(rng, cfg)
+        k = 0
+        for a in vals[:5]:
+            for b in vals[:3] + vals[6:]:
+                s = "ui"[k % 2]
+                op = ["overflowing_mul", "checked_mul", "wrapping_mul", "saturating_mul"][k % 4]
+                k += 1
+                yield f"{op} {s}{cfg} {hx(a)} {hx(b)}", "huge"
+        yield f"widening_mul u{cfg} {hx(vals[0])} {hx(vals[1])}", "huge"
+        yield f"carrying_mul u{cfg} {hx(vals[1])} {hx(vals[0])} {hx(vals[0])}", "huge"
